@@ -318,13 +318,15 @@ Theorem groups_no_members_roundtrip :
 Proof. vm_compute. reflexivity. Qed.
 
 (* the writer does not tell [] from [""]: reading then writing again reproduces the file *)
+Lemma join_norm_members sep ms : join sep (norm_members ms) = join sep ms.
+Proof. destruct ms as [|[|a m] [|m' ms]]; reflexivity. Qed.
 Lemma write_group_norm g : write_group (norm_group g) = write_group g.
-Proof. destruct g as [n p i [|[|a m] [|m' ms]]]; reflexivity. Qed.
+Proof. unfold write_group, norm_group. cbn [g_name g_pass g_gid g_members]. rewrite join_norm_members. reflexivity. Qed.
 Theorem groups_read_write_fixpoint gs : Forall group_ok gs ->
   exists l, load_groups (write_groups gs) = Ok l /\ write_groups l = write_groups gs.
 Proof.
   intro H. exists (map norm_group gs). split; [apply groups_readback, H|].
-  unfold write_groups. rewrite map_map. f_equal. apply map_ext. intro g. apply write_group_norm.
+  unfold write_groups. rewrite map_map. apply (f_equal sconcat). apply map_ext. intro g. apply write_group_norm.
 Qed.
 
 (* ---- the validators decide the Props ------------------------------------------------------ *)
